@@ -790,10 +790,15 @@ fn random_history<H: ArchH>(rep: &mut Report, p: &mut Prng, arch: Arch, id: u64)
     run_op(&mut w, rep, Op::Mod { m: "m0".into(), spec: m.clone() });
     run_op(&mut w, rep, Op::Add { u: "u0".into(), m: "m0".into() });
     let n_ops = 12 + p.below(20);
+    // each lookup address is used consistently as pc or as return address (instruction analysis
+    // makes the cached rule depend on the frame kind)
+    let mut kind: std::collections::BTreeMap<u64, bool> = std::collections::BTreeMap::new();
     for _ in 0..n_ops {
         let rel = *p.pick(&addrs);
-        let addr = base_avma + rel;
-        let is_ra = p.chance(1, 3);
+        let want_ra = p.chance(1, 3);
+        let la = if want_ra { (base_avma + rel).wrapping_sub(1) } else { base_avma + rel };
+        let is_ra = *kind.entry(la).or_insert(want_ra);
+        let addr = if is_ra { la.wrapping_add(1) } else { la };
         let regs = crate::gen::gen_regs(p, arch, addr);
         let mem = crate::gen::gen_mem(p, &regs);
         if p.chance(1, 6) {
